@@ -1,5 +1,6 @@
 import KoordVerif.Model.C11
 import KoordVerif.Model.C11Decode
+import KoordVerif.Model.C11E2E
 import KoordVerif.Proofs.C11Loop
 import KoordVerif.Proofs.C11Order
 import KoordVerif.Proofs.C11Sort
@@ -628,5 +629,224 @@ example :
     show' (traceOf x0 [r1] r2) = [(0, .ok), (1, .pending)] ∧
     show' (traceOf x0 [r1, r2] r3) = [(0, .pending), (1, .pending)] ∧
     show' (traceOf x0 [r1, r2, r3] r4) = [(0, .pending), (1, .ok)] := by decide
+
+/-! ## Part E — memoryEvict() / cpuEvict() end to end (Model/C11E2E.lean)
+
+The end-to-end run is KillAndEvictPods over the tasks the feature loop builds, so every Part A theorem
+(stop_when_met, no_double, victims_in_order, terminating_counted, no_candidate_skipped) holds for its trace
+verbatim.  What is added here: the composition with Part B / Part D — every pod handed to the executor by an
+end-to-end run is eligible under the policy of the FEATURE whose task evicts it. -/
+
+/-- eligibility of raw pod `rp` for a priority-based feature with policy code `code` and threshold `pt`. -/
+def RawPrioEligible (code : Nat) (pt : Int) (rp : RawPod) : Prop :=
+  ∃ pr, PrioEligible pt (decodePodFor code rp) pr
+
+/-- eligibility for a best-effort feature with policy code `code`. -/
+def RawBEEligible (code : Nat) (rp : RawPod) : Prop :=
+  (decodePodFor code rp).qosBE = true ∧ policyAllowed (decodePodFor code rp).policy = true
+
+theorem decodePodFor_id (code : Nat) (rp : RawPod) : (decodePodFor code rp).id = rp.id := rfl
+
+theorem prioEligible_used (pt : Int) (p : Pod) (u : Int) (pr : Int) :
+    PrioEligible pt { p with used := u } pr ↔ PrioEligible pt p pr := Iff.rfl
+
+/-- members of a priority-based list built from raw pods. -/
+theorem mem_selectPrio_raw (code : Nat) (pt : Int) (byReq : Bool) (pods : List RawPod) (i : Info)
+    (h : i ∈ selectPrio pt byReq (pods.map (decodePodFor code)) ∨
+         i ∈ selectPrioMem pt byReq (pods.map (decodePodFor code))) :
+    ∃ rp ∈ pods, i.pod.id = rp.id ∧ RawPrioEligible code pt rp := by
+  rcases h with h | h
+  · obtain ⟨p, hp, pr, he, hi⟩ := (prio_victims_eligible pt byReq _ i).mp h
+    obtain ⟨rp, hrp, rfl⟩ := List.mem_map.mp hp
+    exact ⟨rp, hrp, by rw [hi]; rfl, pr, he⟩
+  · unfold selectPrioMem at h
+    obtain ⟨p, hp, pr, he, hi⟩ := (prio_victims_eligible pt byReq _ i).mp h
+    obtain ⟨p0, hp0, rfl⟩ := List.mem_map.mp hp
+    obtain ⟨rp, hrp, rfl⟩ := List.mem_map.mp hp0
+    exact ⟨rp, hrp, by rw [hi]; rfl, pr, (prioEligible_used pt _ _ pr).mp he⟩
+
+theorem mem_selectBE_raw (code : Nat) (usage : Int → Int → Int) (pods : List RawPod) (i : Info)
+    (h : i ∈ selectBEMem (pods.map (decodePodFor code)) ∨ i ∈ selectBECpu usage (pods.map (decodePodFor code))) :
+    ∃ rp ∈ pods, i.pod.id = rp.id ∧ RawBEEligible code rp := by
+  obtain ⟨h1, h2, h3⟩ := be_victims_eligible usage _ i h
+  obtain ⟨rp, hrp, he⟩ := List.mem_map.mp h1
+  exact ⟨rp, hrp, by rw [← he]; rfl, by rw [RawBEEligible, he]; exact ⟨h2, h3⟩⟩
+
+/-- what "eligible under the feature" means for memoryEvict. -/
+def MemEligible (c : MemCfg) : MemFeature → RawPod → Prop
+  | .be, rp => RawBEEligible 10 rp
+  | .alloc, rp => ∃ pt, c.aPrioThr = some pt ∧ pt ≤ 7999 ∧ RawPrioEligible 11 pt rp
+  | .mem, rp => ∃ pt, c.prioThr = some pt ∧ RawPrioEligible 12 pt rp
+
+theorem memTask_pods_eligible (allocF : Int → Int → Int → Int → Option Int) (c : MemCfg) (pods : List RawPod)
+    (f : MemFeature) (t : Task) (h : memTask allocF c pods f = some t) (e : Entry) (he : e ∈ t.pods) :
+    ∃ rp ∈ pods, e.pod = rp.id ∧ MemEligible c f rp := by
+  cases f with
+  | be =>
+    unfold memTask at h
+    by_cases hc : c.commonOK = true <;> simp [hc] at h
+    obtain ⟨to, _, rfl⟩ := h
+    obtain ⟨i, hi, rfl⟩ := List.mem_map.mp he
+    obtain ⟨rp, hrp, h1, h2⟩ := mem_selectBE_raw 10 (fun _ _ => 0) pods i (Or.inl hi)
+    exact ⟨rp, hrp, h1, h2⟩
+  | mem =>
+    unfold memTask at h
+    by_cases hc : c.memOK = true <;> simp [hc] at h
+    cases hu : c.usedTarget <;> cases hp : c.prioThr <;> simp [hu, hp] at h
+    subst h
+    obtain ⟨i, hi, rfl⟩ := List.mem_map.mp he
+    obtain ⟨rp, hrp, h1, h2⟩ := mem_selectPrio_raw 12 _ false pods i (Or.inr hi)
+    exact ⟨rp, hrp, h1, _, hp, h2⟩
+  | alloc =>
+    unfold memTask at h
+    by_cases hc : c.allocOK = true <;> simp [hc] at h
+    obtain ⟨_, h⟩ := h
+    cases hp : c.aPrioThr with
+    | none => simp [hp] at h
+    | some pt =>
+      simp [hp] at h
+      subst h
+      obtain ⟨i, hi, rfl⟩ := List.mem_map.mp he
+      obtain ⟨rp, hrp, h1, h2⟩ := mem_selectPrio_raw 11 pt true pods i (Or.inr hi)
+      refine ⟨rp, hrp, h1, pt, hp, ?_, h2⟩
+      unfold MemCfg.allocOK at hc
+      cases ha : c.aThr <;> cases hl : c.aLower <;> simp [ha, hl, hp] at hc
+      exact hc.2
+
+/-! ### E.1 memoryEvict end to end: every pod handed to the executor (evicted, failed, or credited as
+    terminating) stands in the list of a task of a feature that is ON, and is eligible under THAT feature:
+    BEMemoryEvict — QoS label BE and not opted out of "BEMemoryEvict"; MemoryAllocatableEvict — defaulted
+    priority ≤ AllocatableEvictPriorityThreshold ≤ 7999 (never koord-prod), eviction enabled, not opted out
+    of "MemoryAllocatableEvict", active, measured; MemoryEvict — likewise with EvictEnabledPriorityThreshold
+    and "MemoryEvict".  (Part D turns these into label / annotation shapes.) -/
+theorem mem_e2e_victims_eligible (allocF : Int → Int → Int → Int → Option Int) (c : MemCfg) (pods : List RawPod)
+    (isEv : Nat → Bool) (script : List Bool) (st : St) (h : memoryEvict allocF c pods isEv script = some st)
+    (ev : Ev) (hev : ev ∈ st.logRev) :
+    ∃ f t, (f, t) ∈ memTasks allocF c pods ∧ c.on f = true ∧ ev.e ∈ t.pods ∧
+      ∃ rp ∈ pods, ev.e.pod = rp.id ∧ MemEligible c f rp := by
+  unfold memoryEvict at h
+  by_cases hemp : (memTasks allocF c pods).isEmpty = true <;> simp [hemp] at h
+  subst h
+  obtain ⟨newer, older, hsplit⟩ := List.append_of_mem hev
+  obtain ⟨t, ht, hin⟩ := victims_are_candidates isEv script _ newer ev older hsplit
+  have hmem : t ∈ (memTasks allocF c pods).map (·.2) := List.mem_of_getElem? ht
+  obtain ⟨⟨f, t'⟩, hft, rfl⟩ := List.mem_map.mp hmem
+  have hft' := hft
+  unfold memTasks at hft'
+  by_cases hcap : c.capacity ≤ 0
+  · simp [hcap] at hft'
+  · simp only [hcap, if_false] at hft'
+    obtain ⟨f0, _, hf0⟩ := List.mem_filterMap.mp hft'
+    by_cases hon : c.on f0 = true
+    · simp only [hon, if_true] at hf0
+      cases hm : memTask allocF c pods f0 with
+      | none => simp [hm] at hf0
+      | some t0 =>
+        simp [hm] at hf0
+        obtain ⟨rfl, rfl⟩ := hf0
+        exact ⟨f0, t0, hft, hon, hin, memTask_pods_eligible allocF c pods f0 t0 hm ev.e hin⟩
+    · simp [hon] at hf0
+
+/-- what "eligible under the feature" means for cpuEvict. -/
+def CpuEligible (c : CpuCfg) : CpuFeature → RawPod → Prop
+  | .be, rp => RawBEEligible 13 rp
+  | .alloc, rp => ∃ pt, c.aPrioThr = some pt ∧ pt ≤ 7999 ∧ RawPrioEligible 14 pt rp
+  | .cpu, rp => ∃ pt, c.prioThr = some pt ∧ RawPrioEligible 15 pt rp
+
+theorem cpuTask_pods_eligible (usage : Int → Int → Int) (allocF : Int → Int → Int → Int → Option Int) (c : CpuCfg)
+    (pods : List RawPod) (f : CpuFeature) (t : Task) (h : cpuTask usage allocF c pods f = some t)
+    (e : Entry) (he : e ∈ t.pods) :
+    ∃ rp ∈ pods, e.pod = rp.id ∧ CpuEligible c f rp := by
+  cases f with
+  | be =>
+    unfold cpuTask at h
+    by_cases hc : c.satOK = true <;> simp [hc] at h
+    obtain ⟨to, _, rfl⟩ := h
+    obtain ⟨i, hi, rfl⟩ := List.mem_map.mp he
+    obtain ⟨rp, hrp, h1, h2⟩ := mem_selectBE_raw 13 usage pods i (Or.inr hi)
+    exact ⟨rp, hrp, h1, h2⟩
+  | cpu =>
+    unfold cpuTask at h
+    by_cases hc : c.usedOK = true <;> simp [hc] at h
+    cases hu : c.usedTarget <;> cases hp : c.prioThr <;> simp [hu, hp] at h
+    subst h
+    obtain ⟨i, hi, rfl⟩ := List.mem_map.mp he
+    obtain ⟨rp, hrp, h1, h2⟩ := mem_selectPrio_raw 15 _ false pods i (Or.inl hi)
+    exact ⟨rp, hrp, h1, _, hp, h2⟩
+  | alloc =>
+    unfold cpuTask at h
+    by_cases hc : c.allocOK = true <;> simp [hc] at h
+    obtain ⟨_, h⟩ := h
+    cases hp : c.aPrioThr with
+    | none => simp [hp] at h
+    | some pt =>
+      simp [hp] at h
+      subst h
+      obtain ⟨i, hi, rfl⟩ := List.mem_map.mp he
+      obtain ⟨rp, hrp, h1, h2⟩ := mem_selectPrio_raw 14 pt true pods i (Or.inl hi)
+      refine ⟨rp, hrp, h1, pt, hp, ?_, h2⟩
+      unfold CpuCfg.allocOK at hc
+      cases ha : c.aThr <;> cases hl : c.aLower <;> simp [ha, hl, hp] at hc
+      exact hc.2
+
+/-! ### E.2 cpuEvict end to end: the same for BECPUEvict / CPUAllocatableEvict / CPUEvict. -/
+theorem cpu_e2e_victims_eligible (usage : Int → Int → Int) (allocF : Int → Int → Int → Int → Option Int) (c : CpuCfg)
+    (pods : List RawPod) (isEv : Nat → Bool) (script : List Bool) (st : St)
+    (h : cpuEvict usage allocF c pods isEv script = some st) (ev : Ev) (hev : ev ∈ st.logRev) :
+    ∃ f t, (f, t) ∈ cpuTasks usage allocF c pods ∧ c.on f = true ∧ ev.e ∈ t.pods ∧
+      ∃ rp ∈ pods, ev.e.pod = rp.id ∧ CpuEligible c f rp := by
+  unfold cpuEvict at h
+  by_cases hemp : (cpuTasks usage allocF c pods).isEmpty = true <;> simp [hemp] at h
+  subst h
+  obtain ⟨newer, older, hsplit⟩ := List.append_of_mem hev
+  obtain ⟨t, ht, hin⟩ := victims_are_candidates isEv script _ newer ev older hsplit
+  have hmem : t ∈ (cpuTasks usage allocF c pods).map (·.2) := List.mem_of_getElem? ht
+  obtain ⟨⟨f, t'⟩, hft, rfl⟩ := List.mem_map.mp hmem
+  have hft' := hft
+  unfold cpuTasks at hft'
+  by_cases hcap : c.capacity ≤ 0
+  · simp [hcap] at hft'
+  · simp only [hcap, if_false] at hft'
+    obtain ⟨f0, _, hf0⟩ := List.mem_filterMap.mp hft'
+    by_cases hon : c.on f0 = true
+    · simp only [hon, if_true] at hf0
+      cases hm : cpuTask usage allocF c pods f0 with
+      | none => simp [hm] at hf0
+      | some t0 =>
+        simp [hm] at hf0
+        obtain ⟨rfl, rfl⟩ := hf0
+        exact ⟨f0, t0, hft, hon, hin, cpuTask_pods_eligible usage allocF c pods f0 t0 hm ev.e hin⟩
+    · simp [hon] at hf0
+
+/-! ### E.3 the used-threshold task exists only at or above the threshold, with the integer target of B.7 -/
+theorem mem_used_task_target (allocF : Int → Int → Int → Int → Option Int) (c : MemCfg) (pods : List RawPod) (t : Task)
+    (h : memTask allocF c pods .mem = some t ∨ memTask allocF c pods .be = some t) :
+    ∃ u thr v, c.nodeUsed = some u ∧ c.thr = some thr ∧ t.toRelease = [(1, v)] ∧ t.target = 0 ∧
+      ¬ Int.tdiv (u * 100) c.capacity < thr ∧
+      v = Int.tdiv (c.capacity * (Int.tdiv (u * 100) c.capacity - c.lower.getD (thr - memBuffer))) 100 := by
+  have key : ∀ to, c.usedTarget = some to → ∃ u thr v, c.nodeUsed = some u ∧ c.thr = some thr ∧ to = [(1, v)] ∧
+      ¬ Int.tdiv (u * 100) c.capacity < thr ∧
+      v = Int.tdiv (c.capacity * (Int.tdiv (u * 100) c.capacity - c.lower.getD (thr - memBuffer))) 100 := by
+    intro to hto
+    unfold MemCfg.usedTarget at hto
+    cases hu : c.nodeUsed <;> cases ht : c.thr <;> simp [hu, ht] at hto
+    rename_i u thr
+    obtain ⟨v, hv, rfl⟩ := hto
+    refine ⟨u, thr, v, rfl, rfl, rfl, ?_, target_formula _ _ _ _ _ _ hv⟩
+    intro hlt
+    rw [(target_none_iff_below_threshold c.capacity u thr c.lower memBuffer).mpr hlt] at hv
+    cases hv
+  rcases h with h | h
+  · unfold memTask at h
+    by_cases hc : c.memOK = true <;> simp [hc] at h
+    cases hu : c.usedTarget <;> cases hp : c.prioThr <;> simp [hu, hp] at h
+    subst h
+    obtain ⟨u, thr, v, h1, h2, h3, h4, h5⟩ := key _ hu
+    exact ⟨u, thr, v, h1, h2, h3, rfl, h4, h5⟩
+  · unfold memTask at h
+    by_cases hc : c.commonOK = true <;> simp [hc] at h
+    obtain ⟨to, hto, rfl⟩ := h
+    obtain ⟨u, thr, v, h1, h2, h3, h4, h5⟩ := key _ hto
+    exact ⟨u, thr, v, h1, h2, h3, rfl, h4, h5⟩
 
 end KoordVerif.C11
